@@ -34,7 +34,7 @@ def features(b):
     for e in b:
         if e.get("ev") == "set_active":
             active[e.get("w", "")] = e.get("label", "")
-        k = e.get("ev", "") + ":" + str(e.get("stage", "")) + ("L" if e.get("late") else "") + ("T" if e.get("ttlb") else "")
+        k = e.get("ev", "") + ":" + str(e.get("stage", "")) + ("L" if e.get("late") else "") + ("T" if e.get("ttlb") else "") + (("nchange%d" % e["nchange"]) if e.get("nchange") else "")
         # the account context matters (multi-account interplay): which account is active, which is named
         k += "@" + active.get(e.get("w", ""), "") + (">" + e["src"] if e.get("src") else "") + (":" + e["tamper"] if e.get("tamper") else "")
         if e.get("mok") is True:
